@@ -730,9 +730,12 @@ package sse
 // event.go: the stream interpreter (C01, C10, C11, C12). yield, onRetry and the parser factory are abstract callees.
 // ---------------------------------------------------------------------------------------------------------
 
+// once the scanner has produced a non-empty token, the field parser has started on it or still holds it untouched
+//@ pure ptokinv(p) = sctok(p.inputScanner) != "" ==> p.fieldScanner.started || p.fieldScanner.data == sctok(p.inputScanner)
+
 //@ func @pf
 //@   ensures parser_is_new: fresh(result) && fresh(result.fieldScanner)
-//@   ensures parser_ready: result != nil && result.inputScanner != nil && result.fieldScanner != nil && !result.fieldScanner.keepComments && result.fieldScanner.err == nil
+//@   ensures parser_ready: result != nil && result.inputScanner != nil && result.fieldScanner != nil && !result.fieldScanner.keepComments && result.fieldScanner.err == nil && sctok(result.inputScanner) == ""
 
 //@ pure isyield(x) = iscall(x, "yield")
 //@ pure yielderr(x) = carg(x, "yield", 1)
@@ -749,6 +752,7 @@ package sse
 //@       yieldev(atexit(0, ncalls())).LastEventID == atexit(0, lastEventID) && yieldev(atexit(0, ncalls())).Type == atexit(0, typ) && eqbytes(yieldev(atexit(0, ncalls())).Data, chomp(atexit(0, sb))))
 //@   ensures ends_with_a_reason: !ignoreEOF && (forall(x, old(ncalls()), ncalls(), isyield(x) ==> cret(x, "yield", 0))) ==> ncalls() > old(ncalls()) && isyield(ncalls()-1) && yielderr(ncalls()-1) != nil
 //@   invariant 0 parser_alive: p != nil && p.fieldScanner != nil && p.inputScanner != nil && !p.fieldScanner.keepComments
+//@   invariant 0 token_in_progress: ptokinv(p)
 //@   invariant 0 no_error_yielded_yet: forall(x, old(ncalls()), ncalls(), isyield(x) ==> yielderr(x) == nil && cret(x, "yield", 0))
 //@   invariant 0 retries_valid: forall(x, old(ncalls()), ncalls(), iscall(x, "onRetry") ==> carg(x, "onRetry", 0) >= 0)
 //@   step 0 data_appends_a_line: f.Name == "data" ==> eqbytes(sb, prev(sb) + f.Value + "\n")
@@ -773,7 +777,7 @@ package sse
 //@   ensures buffer_limit_installed: len(c.buf) != 0 || c.bufMaxSize > 0 ==> scmax(result.inputScanner) == c.bufMaxSize
 //@   ensures default_limit_otherwise: !(len(c.buf) != 0 || c.bufMaxSize > 0) ==> scmax(result.inputScanner) == 0
 //@   ensures parser_is_new: fresh(result) && fresh(result.fieldScanner)
-//@   ensures parser_ready: result != nil && result.inputScanner != nil && result.fieldScanner != nil && !result.fieldScanner.keepComments && result.fieldScanner.err == nil
+//@   ensures parser_ready: result != nil && result.inputScanner != nil && result.fieldScanner != nil && !result.fieldScanner.keepComments && result.fieldScanner.err == nil && sctok(result.inputScanner) == ""
 
 //@ pure isdispatch(x) = iscall(x, "dispatch")
 //@ pure dispatched(x) = carg(x, "dispatch", 0)
@@ -789,6 +793,7 @@ package sse
 //@   invariant read.0 sends_no_request: forall(x, old(ncalls()), ncalls(), !iscall(x, "Do") && !iscall(x, "ResponseValidator") && !iscall(x, "GetBody") && !iscall(x, "OnRetry") && !iscall(x, "TimerReset"))
 //@   invariant read.0 no_error_yet: readErr == nil && c != nil && connok(c)
 //@   invariant read.0 parser_alive: p != nil && p.fieldScanner != nil && p.inputScanner != nil && !p.fieldScanner.keepComments
+//@   invariant read.0 token_in_progress: ptokinv(p)
 //@   invariant read.0 id_unchanged_without_dispatch: (forall(x, old(ncalls()), ncalls(), !isdispatch(x))) ==> c.lastEventID == old(c.lastEventID)
 //@   invariant read.0 id_is_the_last_dispatched_events: forall(x, old(ncalls()), ncalls(), isdispatch(x) && (forall(y, x+1, ncalls(), !isdispatch(y))) ==> c.lastEventID == dispatched(x).LastEventID)
 
